@@ -20,6 +20,7 @@ package main
 import (
 	"fmt"
 	"go/ast"
+	"go/build"
 	"go/parser"
 	"go/token"
 	"math"
@@ -39,11 +40,23 @@ type pkgInfo struct {
 
 var problems []string
 
+// buildOK: the file is part of the package as the compiler sees it here (no test file; its build constraints — //go:build lines and
+// _GOOS / _GOARCH suffixes — are satisfied without extra tags, so verif_hooks.go is left out)
+func buildOK(dir string) func(os.FileInfo) bool {
+	return func(fi os.FileInfo) bool {
+		if strings.HasSuffix(fi.Name(), "_test.go") {
+			return false
+		}
+		ok, err := build.Default.MatchFile(dir, fi.Name())
+		return err == nil && ok
+	}
+}
+
 func problem(f string, a ...interface{}) { problems = append(problems, fmt.Sprintf(f, a...)) }
 
 func load(dir string, ver int) *pkgInfo {
 	fset := token.NewFileSet()
-	pkgs, err := parser.ParseDir(fset, dir, func(fi os.FileInfo) bool { return !strings.HasSuffix(fi.Name(), "_test.go") && fi.Name() != "verif_hooks.go" }, 0)
+	pkgs, err := parser.ParseDir(fset, dir, buildOK(dir), 0)
 	if err != nil {
 		fmt.Fprintln(os.Stderr, "formulas:", err)
 		os.Exit(1)
